@@ -570,7 +570,7 @@ fn concurrent_programs() -> Vec<(crate::sched::Program, crate::props::e1::Mode)>
                     threads: e1::own_handles(vec![vec![api(marker)], vec![api(Op::Set(k.clone(), v(1)))]], false),
                     create_write_dir: true,
                 },
-                Mode::Bounded(2),
+                crate::props::e1::side_bound(),
             ));
         }
     }
